@@ -91,14 +91,24 @@ def gen(seed, i, tier, force=None):
         n = o["GridSize"]
         base = physics.derive(dict(o))
         want_sp = r.choice([1.0, 1.0 + 0.5 / n, 1.0 + 1.4 / n, 1.02, 1.1, 1.26, 1.5, 2.0, 2.37, 3.0]) if r.chance(0.8) else r.uniform(1.0, 4.0)
+        roundup = (force == "buckets:roundup") or (cls == "buckets" and r.chance(0.3))
+        if roundup:
+            # spacing whose rounding to whole cells goes up, last bucket occupied, no power-of-two slack: the train must still fit
+            # grids touching, five or six buckets, spacing rounds up: (nb-1)*round(x)+n > ceil(nb*x) (buckets closer than one
+            # grid length are outside the property's domain and are skipped below)
+            nbk = r.randint(5, 6)
+            cur = [round(r.loguniform(1e-4, 2e-3), 7) if (k in (0, nbk - 1) or r.chance(0.7)) else 0.0 for k in range(nbk)]
+            o["BunchCurrent"] = cur
+            want_sp = 1 + r.uniform(0.505, 0.58) / n
+            o["_bucketkind"] = "roundup"
         # spacing_ps = c/(frev*H*bl*pq): choose H
         H = physics.C / (base["frev"] * want_sp * base["bl"] * base["pq"])
         # bl itself depends on H (through f_s); iterate
-        for _ in range(6):
+        for _ in range(12):
             P = physics.derive(dict(o, HarmonicNumber=H))
-            H = H * P_sp(P) / want_sp
+            H = H * (P_sp(P) / want_sp) ** 2       # (bunch length ~ H^-1/2, so spacing_ps ~ H^-1/2)
         o["HarmonicNumber"] = round(H, 3)
-        o["RoundPadding"] = r.chance(0.5)
+        o["RoundPadding"] = r.chance(0.5) and not roundup
         o["padding"] = r.choice([1.0, 2.0, 8.0])
     if cls in ("rf", "mixed"):
         o["LinearRF"] = r.chance(0.5)
@@ -317,7 +327,7 @@ def run_case(args):
 def run(ctx):
     ctx.assumptions = ASSUME
     ctx.rule = ("case = one run of the real program in the ASan/UBSan build (a sampled subset again under valgrind memcheck) from one of the generator classes: grid (size 4..300, orders, stencils, FP types, shifts up to n/3, padding 0.5..9, rounding), "
-                "buckets (2-5 buckets with empty ones, spacing from nearly touching upward with every fractional part, with/without rounding), rf (models x noise x modulation), kicks (1..13 steps per period: kicks beyond the grid), "
+                "buckets (2-6 buckets with empty ones, spacing from nearly touching upward with every fractional part, with/without rounding; a third touching with a spacing that rounds up to the next cell, 5-6 buckets, first and last occupied, no rounding of the padded length), rf (models x noise x modulation), kicks (1..13 steps per period: kicks beyond the grid), "
                 "impfile (exact/short/long/empty/missing/one column/text/NaN tokens/huge line numbers/duplicates/binary), tracking (edge, outside, empty, malformed, many, missing), "
                 "startdist (.txt ok/empty/malformed/outside; .h5 same/smaller/larger/rank 2/rank 5/zero records/two bunches/non-square/garbage; unknown extension); distinct by option set and file kind")
     th = ctx.tier == "thorough"
@@ -332,7 +342,7 @@ def run(ctx):
     # memcheck subset: uninitialised values are invisible to ASan/UBSan, so the classes that read input or build tables
     # from options are forced into it (one of each per 16), the rest is spread over the generator
     forced = ["rf:modulation", "rf:noise", "impfile:empty", "impfile:short", "startdist:txt_empty", "startdist:txt_ok", "startdist:h5_rank2",
-              "startdist:h5_same", "tracking", "kicks", "buckets", "grid"]
+              "startdist:h5_same", "tracking", "kicks", "buckets", "grid", "buckets:roundup"]
     for k in range(nmem):
         f = forced[k % 16] if (k % 16) < len(forced) else None
         jobs.append((ctx, 7 * k + 3, sdir + "/m", tool, True, f))
@@ -352,7 +362,7 @@ def run(ctx):
             ctx.ev("runs_that_simulated")
         if res.get("finished"):
             ctx.ev("runs_that_finished")
-        sub = res["opts"].get("_impkind") or res["opts"].get("_startkind") or res["opts"].get("_trkkind")
+        sub = res["opts"].get("_impkind") or res["opts"].get("_startkind") or res["opts"].get("_trkkind") or res["opts"].get("_bucketkind")
         if sub:
             ctx.ev("filekind." + sub)
         for key, what, rep in res["viol"]:
@@ -360,4 +370,4 @@ def run(ctx):
         if len(ctx.samples) < 8 and res["i"] % 37 == 0:
             ctx.sample(dict(cls=res["cls"], options=res["opts"], exit_status=res["rc"], simulated=res.get("started")))
     ctx.min_events = {"runs.asan": n * 3 // 4, "runs.memcheck": nmem // 2, "runs_that_finished": n // 3,
-                      "class.grid": 20, "class.buckets": 10, "class.impfile": 20, "class.startdist": 20, "class.tracking": 10, "class.kicks": 10, "class.rf": 10}
+                      "class.grid": 20, "class.buckets": 10, "class.impfile": 20, "class.startdist": 20, "class.tracking": 10, "class.kicks": 10, "class.rf": 10, "filekind.roundup": 4}
